@@ -522,20 +522,38 @@ func ruleDequeShape(cx *Ctx) {
 			continue
 		}
 		fn := cx.P.Func("internal/deque", "Linked", w)
-		okHelper := fn != nil && !ast_IsExported(w)
-		if okHelper {
-			// every caller is a covered operation or another such helper
+		// every caller is a covered operation or another unexported helper of Linked that is itself used only so
+		var helperOK func(h *ssa.Function, depth int) bool
+		helperOK = func(h *ssa.Function, depth int) bool {
+			if h == nil || depth > 3 || ast_IsExported(cname(h)) {
+				return false
+			}
+			if h.Signature.Recv() == nil || namedTypeName(h.Signature.Recv().Type()) != "Linked" {
+				return false
+			}
+			ok := true
 			for _, c := range cx.P.ModuleFuncs() {
 				allInstrs(c, func(in ssa.Instruction) {
-					if isCallTo(in, fn) {
-						cn := cname(outermost(c))
-						if !(covered[cn] || contains(uniq(writers), cn)) || c.Pkg.Pkg.Path() != fn.Pkg.Pkg.Path() {
-							okHelper = false
-						}
+					if !isCallTo(in, h) {
+						return
+					}
+					top := outermost(c)
+					if top.Pkg == nil || h.Pkg == nil || top.Pkg.Pkg.Path() != h.Pkg.Pkg.Path() {
+						ok = false
+						return
+					}
+					cn := cname(top)
+					if covered[cn] || origin(top) == origin(h) {
+						return
+					}
+					if !helperOK(origin(top), depth+1) {
+						ok = false
 					}
 				})
 			}
+			return ok
 		}
+		okHelper := fn != nil && helperOK(origin(fn), 0)
 		if w == "Clear" {
 			// Clear only loops PopFront; it writes nothing itself
 			continue
